@@ -72,6 +72,40 @@ def rule_modified_implies_hook(check, rule="MODIFIED-HOOK"):
             check.bad(rule, key, hir.loc(n), "update_status receives the status of a result whose expression is not built by a hook builder: %s" % (", ".join(bad) or "no hook origin at all"))
         else:
             check.ok(rule, key, hir.loc(n), "result expression origins: hook builder or None")
+    # the hook builders themselves: everything they return is (or wraps) the hook call
+    from .prov import return_exprs
+
+    pvb = Prov(prog, opaque={"get_dd_call_expr", "dd_global_method_invocation"})
+    gp = prog.fn("visitor_util::get_dd_paren_expr")
+    for r in return_exprs(gp.body):
+        os_ = pvb.origins(gp, r)
+        kinds = set()
+        for root, proj in os_:
+            if root[0] == "call" and root[1].split("::")[-1] == "get_dd_call_expr":
+                kinds.add("hook call")
+            elif root[0] == "ctor" and root[1].endswith("Expr::Paren"):
+                kinds.add("parenthesised sequence ending in the hook call")
+            else:
+                kinds.add("NOT-A-HOOK: " + origin_str((root, proj)))
+        bad = sorted(k for k in kinds if k.startswith("NOT-A-HOOK"))
+        check.expect(not bad and bool(kinds), rule, rule + "/builder/get_dd_paren_expr", hir.loc(r), "returns %s" % sorted(kinds), "the hook builder get_dd_paren_expr can return something that is not a hook (%s) while its callers report the result as instrumented" % ", ".join(bad))
+    gc = prog.fn("visitor_util::get_dd_call_expr")
+    for r in return_exprs(gc.body):
+        os_ = pvb.origins(gc, r)
+        ok = bool(os_)
+        for root, proj in os_:
+            if not (root[0] == "ctor" and root[1].endswith("Expr::Call")):
+                ok = False
+                continue
+            node = prog.by_def[root[2]].by_id(root[3])
+            lits = [x for x in hir.walk(node) if x.get("k") == "Struct" and (x["res"].get("path") or "").endswith("CallExpr")]
+            callee_ok = False
+            for lit in lits:
+                for fl in lit["fields"]:
+                    if fl["name"] == "callee":
+                        callee_ok = any(rr[0] == "call" and rr[1].split("::")[-1] == "dd_global_method_invocation" for rr, _ in pvb.origins(gc, fl["e"]))
+            ok = ok and callee_ok
+        check.expect(ok, rule, rule + "/builder/get_dd_call_expr", hir.loc(r), "returns a call of _ddiast.<name>", "get_dd_call_expr can return something that is not a call of the hook namespace")
     # who writes TransformStatus.status
     writers = set()
     for f in prog.user_fns:
